@@ -1,6 +1,6 @@
 (** C10 — metrics are truthful (over exact rationals; counters unbounded). *)
 From Coq Require Import QArith.
-From GA Require Import Model.Spec Proofs.MetricsLemmas.
+From GA Require Import Model.Spec Proofs.Inv Proofs.MetricsLemmas Proofs.MInv Proofs.MInvWorld.
 
 Theorem C10_nonneg : forall m, (0 <= allocation_debt m)%Q.
 Proof. exact debt_nonneg. Qed.
@@ -15,3 +15,39 @@ Theorem C10_adjust :
               (allocation_debt (adjust_debt m x) == allocation_debt m + x)%Q.
 Proof. exact adjust_debt_adds. Qed.
 Print Assumptions C10_adjust.
+
+(** Outside and inside callbacks, in every arena of every reachable world: total_gc_count equals the
+    number of Gc allocations made and not yet released (the all-list holds exactly the allocated
+    blocks, once each). *)
+Theorem C10_count :
+  forall ops a ar, get_arena (run world_init ops) a = Some ar ->
+    total (met (actx ar)) = N.of_nat (length (all (actx ar)))
+    /\ NoDup (all (actx ar)) /\ (forall x, In x (all (actx ar)) <-> allocated (actx ar) x).
+Proof. exact count_exact. Qed.
+Print Assumptions C10_count.
+
+Theorem C10_zero_after_drop :
+  forall ops a ar, get_arena (run world_init ops) a = Some ar -> snd (drop_arena_effect (actx ar)) = 0%N.
+Proof. exact count_zero_after_drop. Qed.
+Print Assumptions C10_zero_after_drop.
+
+(** No metric update ever underflows (the model's unsigned subtractions record an underflow in a
+    ghost flag): for every history of allocations, barriers on objects of tracing and non-tracing
+    types, collection increments with trace panics, debt adjustments, any pacing. This is the
+    theorem that was FALSE of the pinned tree (F1: a write barrier on a marked object of a type with
+    NEEDS_TRACE = false) and holds after the fix. *)
+Theorem C10_no_underflow :
+  forall ops a ar, get_arena (run world_init ops) a = Some ar -> uflow (actx ar) = false.
+Proof. exact no_underflow. Qed.
+Print Assumptions C10_no_underflow.
+
+(** The invariant behind it: every traced-type object that is black has been counted as traced. *)
+Theorem C10_traced_covers_black :
+  forall ops a ar, get_arena (run world_init ops) a = Some ar -> ph (actx ar) = Mark ->
+    (N.of_nat (nblack (actx ar)) <= traced (met (actx ar)))%N.
+Proof. intros ops a ar H. exact (m_traced _ (wminv_reachable ops a ar H)). Qed.
+Print Assumptions C10_traced_covers_black.
+
+(** PARTIAL: monotonicity of the debt under mutator operations (known finding F4 for first-marking
+    forward barriers / resurrect) is decided by the implementation-side oracle; finiteness is a float
+    matter (malformed-input stream). *)
